@@ -159,6 +159,7 @@ func genWheel(g *gen, tier string) *Scenario {
 }
 
 type wheelRef struct {
+	since    int64 // max(deadline, time at which it was scheduled): reclamation cannot precede scheduling
 	deadline int64
 	past     bool // scheduled with a deadline not after the wheel's time
 	level    int  // level the TTL selects at scheduling time (by the property's spans)
@@ -206,7 +207,7 @@ func runWheelScenario(sc *Scenario) *RunData {
 					rd.violate("C04/wheel-structure", fmt.Sprintf("after %s: key %d is filed %d times", what, k, seen[k]))
 					return false
 				}
-				if what != "schedule" && r.deadline+wheelLate <= now {
+				if what != "schedule" && r.since+wheelLate <= now {
 					cls := fmt.Sprintf("level=%d", r.level)
 					if r.past {
 						cls = "scheduled-in-past"
@@ -258,7 +259,10 @@ func runWheelScenario(sc *Scenario) *RunData {
 				if _, ok := ref[op.Key]; ok {
 					probe("c04.rescheduled")
 				}
-				r := &wheelRef{deadline: dl, past: dl <= now, level: levelOfTTL(dl - now)}
+				r := &wheelRef{deadline: dl, since: dl, past: dl <= now, level: levelOfTTL(dl - now)}
+				if r.past {
+					r.since = now
+				}
 				if r.past {
 					probe("c04.scheduled-in-past")
 				}
@@ -288,7 +292,7 @@ func runWheelScenario(sc *Scenario) *RunData {
 				}
 			case "wdrain":
 				// tick once per second until every deadline is more than two ticks behind
-				var last int64
+				last := now // entries scheduled with a past deadline count from now
 				for _, r := range ref {
 					if r.deadline > last {
 						last = r.deadline
